@@ -22,6 +22,17 @@
 (* Hashes, cycles and MMR roots are abstract flags (primitives, see C05 and *)
 (* C07); everything the rules compute with is an integer.                   *)
 (* State: `known` = the headers the node has stored (id -> header).         *)
+(*                                                                         *)
+(* Every entry point takes the caller's `opts`, a subset of `Options`       *)
+(* (chain::types::Options; NONE = {}).  The node passes {} for broadcast    *)
+(* headers/blocks, {"SYNC"} for header sync (sync_block_headers) and for    *)
+(* blocks requested by body sync, {"MINE"} for blocks it mined itself       *)
+(* (servers/src/common/adapters.rs, grin/sync/body_sync.rs, mining/).       *)
+(* The property knows no option: the verdict is a function of the header    *)
+(* and the stored chain alone.  Only SKIP_POW (test chains; never passed by *)
+(* the node) drops the proof-of-work / difficulty clauses; SYNC and MINE    *)
+(* are carried to the adapter callbacks and must not reach any rule         *)
+(* (MC_Header!OptionsIrrelevant).                                           *)
 (***************************************************************************)
 EXTENDS Difficulty, Integers
 
@@ -32,6 +43,10 @@ VARIABLE known
 hvars == <<known>>
 
 P == ChainParams[CT]
+
+Options == {"SKIP_POW", "SYNC", "MINE"}
+NodeOptionSets == {{}, {"SYNC"}, {"MINE"}}      \* what the node really passes
+SkipPow(opts) == "SKIP_POW" \in opts             \* the ONLY way `opts` enters a verdict
 
 IsSecondary(eb) == eb = SECOND_POW_EDGE_BITS
 IsPrimary(eb)   == eb # SECOND_POW_EDGE_BITS /\ eb >= P.minEdgeBits
@@ -60,7 +75,12 @@ Weight(nOut, nKern) == nOut * OUTPUT_WEIGHT + nKern * KERNEL_WEIGHT
 (* name of the first failing check.  `nd` (the network difficulty) is only  *)
 (* evaluated when the difficulty clauses are reached.                       *)
 (***************************************************************************)
-ValidateWith(h, kn, skipPow, nd) ==
+(* pipe::validate_pow_only (without SKIP_POW): edge bits class, then the cycle *)
+PowOnly(h) ==
+  IF ~IsPrimary(h.eb) /\ ~IsSecondary(h.eb) THEN "low_edge_bits"
+  ELSE IF ~h.powValid THEN "invalid_pow" ELSE "ok"
+
+ValidateWith(h, kn, opts, nd) ==
   IF h.prev \notin DOMAIN kn THEN "unknown_prev" ELSE
   LET prev    == kn[h.prev]
       numOut  == SatSub(h.outs, prev.outs)
@@ -70,20 +90,19 @@ ValidateWith(h, kn, skipPow, nd) ==
      ELSE IF h.ts <= prev.ts THEN "time"
      ELSE IF numOut = 0 \/ numKern = 0 THEN "mmr_size"
      ELSE IF Weight(numOut, numKern) > P.maxBlockWeight THEN "too_heavy"
-     ELSE IF skipPow THEN "ok"
-     ELSE IF ~IsPrimary(h.eb) /\ ~IsSecondary(h.eb) THEN "low_edge_bits"
-     ELSE IF ~h.powValid THEN "invalid_pow"
+     ELSE IF SkipPow(opts) THEN "ok"
+     ELSE IF PowOnly(h) # "ok" THEN PowOnly(h)
      ELSE IF h.total <= prev.total THEN "difficulty_too_low"
      ELSE IF h.powDiff < h.total - prev.total THEN "difficulty_too_low"
      ELSE IF h.total - prev.total # nd.diff THEN "wrong_total_difficulty"
      ELSE IF h.version < LAST_HF_VERSION /\ h.scaling # nd.scal THEN "invalid_scaling"
      ELSE "ok"
 
-ValidateHeader(h, kn, skipPow) == ValidateWith(h, kn, skipPow, NetworkDifficulty(kn, h))
+ValidateHeader(h, kn, opts) == ValidateWith(h, kn, opts, NetworkDifficulty(kn, h))
 
 (* header stage = validate_header, then HeaderExtension::validate_root before apply_header *)
-HeaderStage(h, kn, skipPow) ==
-  LET v == ValidateHeader(h, kn, skipPow) IN
+HeaderStage(h, kn, opts) ==
+  LET v == ValidateHeader(h, kn, opts) IN
   IF v # "ok" THEN v ELSE IF ~h.rootOK THEN "invalid_root" ELSE "ok"
 
 (***************************************************************************)
@@ -122,33 +141,40 @@ ReadCheck(h, now) ==
 Store(kn, h) == IF h.id \in DOMAIN kn THEN kn ELSE [i \in DOMAIN kn \cup {h.id} |-> IF i = h.id THEN h ELSE kn[i]]
 
 (* Chain::process_block_header: a header already stored is success without re-validation *)
-ProcessHeaderRes(h, kn, skipPow) == IF h.id \in DOMAIN kn THEN "ok" ELSE HeaderStage(h, kn, skipPow)
+ProcessHeaderRes(h, kn, opts) == IF h.id \in DOMAIN kn THEN "ok" ELSE HeaderStage(h, kn, opts)
 
-ProcessBlockHeader(h, skipPow, res) ==
-  /\ res = ProcessHeaderRes(h, known, skipPow)
+ProcessBlockHeader(h, opts, res) ==
+  /\ res = ProcessHeaderRes(h, known, opts)
   /\ known' = IF res = "ok" THEN Store(known, h) ELSE known
 
 (* Chain::sync_block_headers: every header of the chunk is validated in order against the
    store extended by its predecessors in the chunk, then the whole chunk is applied to the
    header MMR (prev_root of each); all or nothing. *)
 RECURSIVE SyncRes(_, _, _)
-SyncRes(hs, kn, skipPow) ==
+SyncRes(hs, kn, opts) ==
   IF hs = <<>> THEN "ok"
-  ELSE LET v == HeaderStage(hs[1], kn, skipPow) IN
-       IF v # "ok" THEN v ELSE SyncRes(Tail(hs), Store(kn, hs[1]), skipPow)
+  ELSE LET v == HeaderStage(hs[1], kn, opts) IN
+       IF v # "ok" THEN v ELSE SyncRes(Tail(hs), Store(kn, hs[1]), opts)
 
 RECURSIVE StoreAll(_, _)
 StoreAll(kn, hs) == IF hs = <<>> THEN kn ELSE StoreAll(Store(kn, hs[1]), Tail(hs))
 
-SyncBlockHeaders(hs, skipPow, res) ==
-  /\ res = SyncRes(hs, known, skipPow)
+SyncBlockHeaders(hs, opts, res) ==
+  /\ res = SyncRes(hs, known, opts)
   /\ known' = IF res = "ok" THEN StoreAll(known, hs) ELSE known
 
 (* Chain::process_block with a body that is valid on its own: header stage first (committed
-   even if the body is then refused), then the body must be the one the header commits to. *)
-ProcessBlock(h, skipPow, res) ==
-  LET hr == ProcessHeaderRes(h, known, skipPow) IN
-  /\ res = IF hr # "ok" THEN hr ELSE IF ~h.bodyOK THEN "body_mismatch" ELSE "ok"
+   even if the body is then refused), then the body must be the one the header commits to.
+   Which bodies the node holds is not part of this state: when the parent's body is missing
+   the block is parked in the orphan pool ("orphan", re-processed later with the same options
+   without a call of its own) - but only after its header passed the header stage. *)
+ProcessBlock(h, opts, res) ==
+  LET hr == ProcessHeaderRes(h, known, opts)
+      \* pipe::process_block runs validate_pow_only up front, also for a header already stored
+      pw == IF SkipPow(opts) THEN "ok" ELSE PowOnly(h)
+  IN
+  /\ res \in IF hr # "ok" THEN {hr}
+             ELSE {"orphan", IF pw # "ok" THEN pw ELSE IF ~h.bodyOK THEN "body_mismatch" ELSE "ok"}
   /\ known' = IF hr = "ok" THEN Store(known, h) ELSE known
 
 (* deserialising an UntrustedBlockHeader: no state *)
